@@ -13,6 +13,7 @@ import (
 	"os"
 	"strings"
 	"testing"
+	"unicode"
 
 	jp "github.com/jmespath/go-jmespath"
 	"pgregory.net/rapid"
@@ -868,4 +869,32 @@ func TestC04Literals(t *testing.T) {
 		c := Case{Property: "C04", Kind: "lang", Expr: strings.Replace(ctx, "%s", expr, 1), Extra: map[string]interface{}{"nearmiss": true}}
 		run(t, c)
 	})
+}
+
+// TestC04NearWhitespace: JMESPath whitespace is exactly space, tab, newline and carriage
+// return. Every other character that some library calls "space" (Unicode White_Space and the
+// Z categories, format characters such as the byte order mark and zero-width space, the C0
+// separators that Java's isWhitespace accepts, NUL) belongs to no token, wherever it stands.
+func TestC04NearWhitespace(t *testing.T) {
+	var near []rune
+	for r := rune(0); r <= 0x10ffff; r++ {
+		if r == ' ' || r == '\t' || r == '\n' || r == '\r' {
+			continue
+		}
+		if unicode.IsSpace(r) || unicode.In(r, unicode.Z, unicode.Cf) || (r >= 0x1c && r <= 0x1f) || r == 0 || r == 0x0b || r == 0x0c || r == 0x7f {
+			near = append(near, r)
+		}
+	}
+	tmpls := []string{"a%s", "%sa", "a%s.%sb", "a %s|| b", "[a,%sb]", "f(%sa)", "{a:%sb}", "a[%s0]", "a[0%s:1]", "a%s", "'x'%s", "`1`%s", "a |%s b", "!%sa", "a[?%sb]", "@%s", "a.*%s", "a[]%s.b"}
+	n := 0
+	for _, r := range near {
+		for _, tm := range tmpls {
+			run(t, Case{Property: "C04", Kind: "lang", Expr: strings.Replace(tm, "%s", string(r), -1)})
+			n++
+		}
+	}
+	st := statsFor("C04")
+	st.mu.Lock()
+	st.Exhaustive["C04.near-whitespace"] = fmt.Sprintf("%d characters that are space-like but not JMESPath whitespace x %d positions between tokens: %d expressions, all must be rejected", len(near), len(tmpls), n)
+	st.mu.Unlock()
 }
